@@ -48,10 +48,11 @@ def render_note(pd, dec, keep, conv):
     dec_sel = [s for s in dec if keep is None or keep(s.category)]
     pd_canon = sorted(pd_sel, key=lambda s: group_rank(s.category))
     dec_canon = sorted(dec_sel, key=lambda s: s.encoding)
-    pitch_part = [s for s in pd_canon if disj(s.category == P, s.category == A)]
+    pitch_part = [s for s in pd_canon if s.category == P]
     if conv is not None and pitch_part:
+        # C10: only the pitch letters are converted; the accidental (with its display suffix) is carried over unchanged
         dur = [s.encoding for s in pd_canon if s.category == D]
-        agn = conv(''.join(s.encoding for s in pitch_part))
+        agn = conv(''.join(s.encoding for s in pitch_part)) + ''.join(s.encoding for s in pd_canon if s.category == A)
         if dur:
             body = TOKEN_SEP.join(dur) + TOKEN_SEP + agn
         else:
